@@ -44,6 +44,7 @@ import (
 	"github.com/bluenviron/mediamtx/internal/auth"
 	"github.com/bluenviron/mediamtx/internal/conf"
 	"github.com/bluenviron/mediamtx/internal/conf/jsonwrapper"
+	"github.com/bluenviron/mediamtx/internal/logger"
 	"github.com/bluenviron/mediamtx/internal/protocols/httpp"
 	"github.com/bluenviron/mediamtx/internal/verifutil"
 )
@@ -313,6 +314,13 @@ func verifC12Oracle(scope string, values any, err error, intended []string) stri
 // Core.APIConfigSnapshot and the HTTP routes of api.API are used, so a refactoring of the plumbing cannot break
 // the harness build.
 
+// The API's parent: the real Core for everything the property is about (APIConfig*), but logging does not go to
+// Core's logger — that logger is nil while Core reloads a log parameter and after Core.Close; in production the
+// API is owned (created, closed) by Core and never logs then, here it is owned by the harness.
+type verifC12Parent struct{ *Core }
+
+func (verifC12Parent) Log(logger.Level, string, ...any) {}
+
 type verifC12Auth struct{}
 
 func (verifC12Auth) Authenticate(*auth.Request) (string, *auth.Error) { return "", nil }
@@ -336,8 +344,32 @@ func verifC12Stop() {
 	}
 }
 
+var verifC12Dir string
+
+// the configuration file lives in a directory of its own: Core's conf watcher watches the whole parent directory,
+// and the shared /tmp is written to by everybody all the time
 func verifC12ConfFile() string {
-	return filepath.Join(os.TempDir(), fmt.Sprintf("verif-c12-core-%d.yml", os.Getpid()))
+	if verifC12Dir == "" {
+		d, err := os.MkdirTemp("", "verif-c12-core-")
+		if err != nil {
+			panic(err)
+		}
+		verifC12Dir = d
+	}
+	return filepath.Join(verifC12Dir, "mediamtx.yml")
+}
+
+// has Core.run returned (it does on a failed reload, on a signal, on Close)?
+func verifC12CoreDead() bool {
+	if verifC12Real == nil {
+		return true
+	}
+	select {
+	case <-verifC12Real.done:
+		return true
+	default:
+		return false
+	}
 }
 
 // the gin router of an initialized api.API (field httpServer.Handler), so that requests are served without a socket
@@ -362,7 +394,7 @@ func verifC12Start(doc []byte) string {
 		ReadTimeout:  conf.Duration(10 * time.Second),
 		WriteTimeout: conf.Duration(10 * time.Second),
 		AuthManager:  verifC12Auth{},
-		Parent:       p,
+		Parent:       verifC12Parent{p},
 	}
 	if err := a.Initialize(); err != nil {
 		return "api-did-not-start"
@@ -604,6 +636,9 @@ func verifC12Exec(op string) string {
 			return "core-started-with-another-configuration"
 		}
 		return "ok"
+	}
+	if verifC12CoreDead() {
+		return "core-terminated-before-op"
 	}
 	if f[0] == "read" {
 		return verifC12Read(f)
@@ -869,7 +904,9 @@ func verifC12GenBody(r *verifutil.Rand, fields []verifC12Field, popular []string
 		}
 		used[f.key] = true
 		v := verifC12ValueFor(r, f.key, f.typ, cur[f.key])
-		if r.Chance(1, 25) {
+		// (never on a server switch: a wrong-typed value there may be the literal `true`, which would start a
+		// server on a fixed port, and a server that cannot start makes Core exit — reloadConf error)
+		if r.Chance(1, 25) && !verifC12ServerSwitch[f.key] && !strings.HasSuffix(f.key, "Disable") {
 			v = verifC12Hostile(r)
 			hostile = true
 		}
@@ -1183,7 +1220,9 @@ func verifC12Gen(r *verifutil.Rand, i int, thorough bool) []string {
 func TestVerifC12(t *testing.T) {
 	defer func() {
 		verifC12Stop()
-		os.Remove(verifC12ConfFile())
+		if verifC12Dir != "" {
+			os.RemoveAll(verifC12Dir)
+		}
 	}()
 	verifutil.Main(t, &verifutil.Harness{
 		ID: "C12", Exec: verifC12Exec, Gen: verifC12Gen, Quick: 120, Thorough: 3000,
